@@ -20,7 +20,7 @@ pub const FLOORS: &[&str] = &[
     "accept:label_offset", "reject:integer", "reject:other", "family:boundary", "family:names",
     "family:random", "family:multibyte", "family:machine", "names:accepted", "names:misspelling",
     "names:too_many_args", "names:too_few_args", "machine:move", "machine:goto", "machine:break",
-    "names:long_unknown_word_multibyte", "names:other_white_space",
+    "names:long_unknown_word_multibyte", "names:other_white_space", "names:hundreds_of_arguments",
 ];
 
 pub const ALPHABET: &[char] = &['+', '-', '#', 'x', 'o', 'b', '0', '1', '7', '9', 'a', 'f', 'g', '^', 'r', '_'];
@@ -341,6 +341,18 @@ fn names_case(seed: u64, i: u64) -> CaseOut {
             } else {
                 out.class("names:too_few_args");
             }
+        }
+    }
+    // far more arguments than any command takes (as many as any counter of them might hold, and more)
+    for n_extra in [1usize, 20, 126, 127, 128, 253, 254, 255, 256, 257, 300, 1000, 70_000] {
+        if n_extra > 300 && cfg!(miri) {
+            continue;
+        }
+        let base = *rng.pick(&["registers", "print r0", "move r0 5", "goto x3000", "break list", "step", "continue", "assembly", "break add x3001", "reset", "quit"]);
+        let line = format!("{}{}", base, " x".repeat(n_extra));
+        evals += 1;
+        if check_line(&mut out, &line, i).is_some() {
+            out.class("names:hundreds_of_arguments");
         }
     }
     // words that are no command at all, long and with multi-byte characters at every byte offset
